@@ -36,6 +36,11 @@ func main() {
 		fmt.Fprintf(os.Stderr, "usage: vcheck <property> <quick|thorough>\nproperties: %v\n", ids)
 		os.Exit(2)
 	}
+	// the engine prints diagnostics with fmt.Printf: keep them out of our output
+	if dn, err := os.OpenFile(os.DevNull, os.O_WRONLY, 0); err == nil && os.Getenv("VERIF_ENGINE_STDOUT") == "" {
+		ev.Out = os.Stdout
+		os.Stdout = dn
+	}
 	id, tier := os.Args[1], os.Args[2]
 	def, ok := checks[id]
 	if !ok {
